@@ -22,3 +22,22 @@ Definition session_state_rows : list access := filter (fun a => mem_s (a_field a
 Definition has_conflict (t : list access) : bool := existsb (fun a1 => existsb (conflict a1) t) t.
 Definition has_field (t : list access) (f : string) : bool := existsb (fun a => String.eqb (a_field a) f) t.
 
+
+(* The atomic steps the C11 argument relies on, with the source function that has to implement each as ONE lock
+   region ([true]: including the datapath write):
+   - IP pool and TEID generator methods are the operations of Model/IPPool.v and Model/Fteid.v whose interleavings
+     C11_ippool_renaming / C11_teid_fresh (and C06 / C07) quantify over;
+   - "find or create the tunnel peer, write it to the switch, record it" and "drop the reference, and if it was the last
+     one delete the entry and release the id" are single steps of the tunnel-peer protocol: only then is every reachable
+     state one in which tunnel_peers holds exactly the peers that live sessions refer to;
+   - the two UE-address maps are updated together;
+   - the application bookkeeping (reference sets, id pool) is one step each way; its datapath write is NOT part of the
+     step in the code (see C11_application_write_outside_refuted, F1102). *)
+Definition atomic_steps : list atomic_req :=
+  [("IPPool.LookupOrAllocIP", false); ("IPPool.DeallocIP", false);
+   ("FTEIDGenerator.Allocate", false); ("FTEIDGenerator.FreeID", false); ("FTEIDGenerator.IsAllocated", false);
+   ("UP4.addOrUpdateGTPTunnelPeer", true); ("UP4.removeGTPTunnelPeer", true); ("UP4.getGTPTunnelPeer", false);
+   ("UP4.updateUEAddrAndFSEIDMappings", false); ("UP4.removeUeAddrAndFSEIDMappings", false);
+   ("UP4.addInternalApplicationIDAndGetP4rtEntry", false); ("UP4.removeInternalApplicationIDAndGetP4rtEntry", false)].
+Definition application_steps_with_write : list atomic_req :=
+  [("UP4.addInternalApplicationIDAndGetP4rtEntry", true); ("UP4.removeInternalApplicationIDAndGetP4rtEntry", true)].
